@@ -261,6 +261,13 @@ func EntrySpecDigestFor(version int) (EntrySpecDigest, error) {
 }
 
 func EntrySpecDigest_v0(kv *EntrySpec) [sha256.Size]byte {
+	// Transactions with header version 0 cannot carry entry metadata (see TxEntryDigest_v1_1).
+	// An entry that claims some must never verify against such a transaction: since this function
+	// cannot report an error, fall back to the metadata-aware digest, which no version 0 tree contains.
+	if kv.Metadata != nil && len(kv.Metadata.Bytes()) > 0 {
+		return EntrySpecDigest_v1(kv)
+	}
+
 	b := make([]byte, len(kv.Key)+sha256.Size)
 	copy(b[:], kv.Key)
 	hvalue := sha256.Sum256(kv.Value)
